@@ -51,13 +51,28 @@ def generate(seed, scratch):
             "schedule": {"fault_free": fault_free, "cli": True, "evict": "all" if rs.random() < 0.2 else None,
                          # terminal verbosity must not change what is counted or logged
                          "cli_flags": rs.choice([[], [], ["-q"], ["-v"], ["-v", "-v"], ["-q", "-q"]]),
-                         "cov": rs.random() < 0.2},
+                         "cov": rs.random() < 0.2,
+                         # every platform selected explicitly with -p, one of them named twice (a wrapper script that
+                         # appends to a default list): still one analysis of each
+                         "p_repeat": rs.random() < 0.15},
             "repairs": repairs}
+
+
+def _p_repeat(world, sched):
+    names = [p["name"] for p in world["platforms"]]
+    if not sched.get("p_repeat") or not names:
+        return []
+    out = []
+    for n in names + [names[0]]:
+        out += ["-p", n]
+    return out
 
 
 # ------------------------------------------------------------------------------ record matching
 def _has_token(msg, tok):
-    return re.search(r"(?<![\w./+-])" + re.escape(tok) + r"(?![\w/+-]|\.\w)", msg) is not None
+    # (a byte that was no UTF-8 may be shown as U+FFFD, as an escape, as a surrogate: any short stand-in is accepted)
+    body = "".join(".{1,4}?" if ch == "\ufffd" else re.escape(ch) for ch in tok)
+    return re.search(r"(?<![\w./+-])" + body + r"(?![\w/+-]|\.\w)", msg) is not None
 
 
 def _has_file_line(msg, rel, line):
@@ -232,7 +247,7 @@ def execute(case, scratch):
         if sched.get("cli"):
             root = os.path.join(top, world["root"])
             cres = runners.run_fresh("cli_run", {"top": top, "cwd": root, "module": "codebasin",
-                                                 "argv": list(sched.get("cli_flags") or []) + ["-R", "summary", os.path.join(top, W.analysis_path(world))],
+                                                 "argv": list(sched.get("cli_flags") or []) + _p_repeat(world, sched) + ["-R", "summary", os.path.join(top, W.analysis_path(world))],
                                                  "keep": ["cbi.log"]})
             stats["cli_runs"] = 1
             if cres["rc"] != 0:
